@@ -335,7 +335,7 @@ def setup(ctx):
         for name in ('__add__', '__rmul__', '__iadd__', 'invariant', '_count_atoms'):
             ctx.require('contract.' + name, 1, 'this contract must have been evaluated')
         ctx.require('cases.private', 1, 'private-table share of the workload')
-        for name in ('mul.zero', 'mul.one', 'mul.numpy', 'iadd.aliased', 'leaf.dict', 'leaf.seq', 'leaf.str', 'leaf.atom', 'leaf.blank-string'):
+        for name in ('mul.zero', 'mul.one', 'mul.numpy', 'iadd.aliased', 'leaf.dict', 'leaf.seq', 'leaf.str', 'leaf.atom', 'leaf.blank-string', 'copy.table-other'):
             ctx.require('prog.' + name, 1, 'workload feature demanded by the property quantifier')
 
 
@@ -430,6 +430,8 @@ def _features(ctx, st):
             ctx.count('prog.mul.float')
     else:
         ctx.count('prog.' + op)
+        if op == 'copy' and st.get('table') and (st['table'] == 'same' or _s['cur_scale'] == 1.0):
+            ctx.count('prog.copy.table-' + st['table'])
 
 
 def _run(ctx, prog, T, quiet=False):
@@ -437,7 +439,11 @@ def _run(ctx, prog, T, quiet=False):
     {'kind', 'msg', 'step', ...}.  Stops at the first statement that shows a problem other than a
     shared list structure (which is recorded, and the program goes on)."""
     from ..gen.programs import RealMachine, ShadowMachine
-    real, sh = RealMachine(T), ShadowMachine()
+    # formula(f, table=<another table>) is driven between the public and the unscaled private table only: should a
+    # tree convert the copy to the other table (the operand left alone), its masses are the same there
+    tabs = _s['tables']
+    other = tabs['private'] if T is tabs['public'] else (tabs['public'] if T is tabs['private'] else None)
+    real, sh = RealMachine(T, other), ShadowMachine()
     dict_structures = set()
     soft = []
     for idx, st in enumerate(prog['stmts']):
